@@ -216,6 +216,27 @@ def run(case, rec):
             if c.ok:
                 vq = curvature.volume_3d(cls, R, amps)
                 rec.check(abs(c.result - vq) <= 1e-7 * vq, "volume", f"volume {c.result!r} != quadrature {vq!r}; {label}")
+                if len(amps) >= 1 and case["dir_seed"] % 3 == 0:
+                    # the volume is a property of the current shape: after the shape was changed on the same object (one
+                    # amplitude written through the array the droplet hands out, or the whole set assigned, or the
+                    # radius changed as well) it is that of the new shape
+                    d2 = _mk(case)
+                    common.monitored(rec, "volume", lambda: d2.volume)  # read once before the change
+                    new = [0.5 * a for a in amps]
+                    new[case["dir_seed"] % len(new)] = 0.12
+                    how = (case["dir_seed"] // 3) % 3
+                    if how == 0:
+                        d2.amplitudes[case["dir_seed"] % len(new)] = 0.12
+                        new = [a if i != case["dir_seed"] % len(amps) else 0.12 for i, a in enumerate(amps)]
+                    elif how == 1:
+                        d2.amplitudes = np.asarray(new, float)
+                    else:
+                        d2.data["amplitudes"] = np.asarray(new, float)
+                    c2 = common.monitored(rec, "volume", lambda: d2.volume)
+                    vq2 = curvature.volume_3d(cls, R, new)
+                    rec.check(c2.ok and abs(c2.result - vq2) <= 1e-7 * vq2, "volume",
+                              f"after changing the amplitudes to {new} on the same object (way {how}) the volume is "
+                              f"{c2.result if c2.ok else c2.exc!r}, the quadrature of the new shape gives {vq2!r}; {label}")
             elif not isinstance(c.exc, NotImplementedError):
                 rec.check(False, "no-exception", f"volume raised {c.exc!r}; {label}")
             else:
